@@ -408,7 +408,15 @@ func c17Digest(r *Report) {
 			}
 		}
 	}
-	// PSS options
+	checkPSSOptions(r, "R17.4")
+}
+
+// checkPSSOptions: RSASSA-PSS as RFC 8230 fixes it: on both sides the hash is
+// hashFunc(recv.alg) and the salt length is the hash length
+// (rsa.PSSSaltLengthEqualsHash); in particular the verifier does not
+// auto-detect other salt lengths.
+func checkPSSOptions(r *Report, rule string) {
+	P := r.P
 	var signHash, verHash, signSalt, verSalt string
 	for _, fn := range P.Funcs {
 		for _, ci := range callsIn(fn, nil) {
@@ -427,9 +435,9 @@ func c17Digest(r *Report) {
 			}
 		}
 	}
-	o := r.ob("R17.4", "pss:options", nil, nil, "PSS hash is hashFunc(recv.alg) on both sides and the salt-length constants are equal")
+	o := r.ob(rule, "pss:options", nil, nil, "PSS hash is hashFunc(recv.alg) on both sides and the salt-length constants are equal")
 	hfn := "call<" + shortFn(P.hashTableFunc()) + ">(*$0.alg)"
-	okP := strings.Contains(signHash, hfn) && strings.Contains(verHash, hfn) && signSalt != "" && signSalt == verSalt
+	okP := strings.Contains(signHash, hfn) && strings.Contains(verHash, hfn) && signSalt != "" && signSalt == verSalt && signSalt == "-1"
 	o.check(okP, fmt.Sprintf("hash %s / %s, salt %s / %s", signHash, verHash, signSalt, verSalt), fmt.Sprintf("sign side hash %q salt %q; verify side hash %q salt %q", signHash, signSalt, verHash, verSalt))
 }
 
